@@ -6,15 +6,19 @@
     AgreeDocBase   translations, text views, current_char, is_cursor_at_the_end_of_line
     AgreeDocLines  coordinates, line tables, character / line motions
     AgreeDocMisc   leading whitespace, last non-blank, column, matching lines, paragraphs
+    AgreeDocCache  Document.__init__ / lines / _line_start_indexes through the shared cache (C01)
     AgreeDocWords  word scanners and word motions
     AgreeDocFind   find / find_backwards
     AgreeDocBrk    brackets, find_boundaries_of_current_word, get_word_under_cursor
+    AgreeDocGen    the `\s` side condition of the C08 / C01 word theorems on the regenerated table
     AgreeDocCut    selection_ranges / cut_selection (C08 vs C09)
 -/
 import Ptk.Props.AgreeDocBase
 import Ptk.Props.AgreeDocLines
 import Ptk.Props.AgreeDocMisc
+import Ptk.Props.AgreeDocCache
 import Ptk.Props.AgreeDocWords
 import Ptk.Props.AgreeDocFind
 import Ptk.Props.AgreeDocBrk
 import Ptk.Props.AgreeDocCut
+import Ptk.Props.AgreeDocGen
